@@ -22,6 +22,9 @@ struct Case {
     n: u16,
     t: u16,
     seed: String,
+    /// compare the outputs with those of a separate process (no per-process entropy source)
+    #[serde(default)]
+    cross_process: bool,
 }
 
 const ENTRIES: [&str; 10] = [
@@ -75,24 +78,81 @@ impl Prop for C16 {
                     if suite == "ed448" && n > tier.pick(4, 5) {
                         continue;
                     }
-                    out.push(serde_json::to_value(Case { suite: suite.to_string(), entry: e.to_string(), n, t, seed: format!("s{seed}") }).unwrap());
+                    out.push(serde_json::to_value(Case { suite: suite.to_string(), entry: e.to_string(), n, t, seed: format!("s{seed}"), cross_process: false }).unwrap());
                 }
                 if e == "batch::Verifier::verify" {
                     for n in [8u16, 16, 64] {
                         if n > tier.pick(8, 64) {
                             continue;
                         }
-                        out.push(serde_json::to_value(Case { suite: suite.to_string(), entry: e.to_string(), n, t: 2, seed: format!("s{seed}") }).unwrap());
+                        out.push(serde_json::to_value(Case { suite: suite.to_string(), entry: e.to_string(), n, t: 2, seed: format!("s{seed}"), cross_process: false }).unwrap());
                     }
                 }
+            }
+            if !suite.starts_with("tiny") {
+                out.push(serde_json::to_value(Case { suite: suite.to_string(), entry: "*".to_string(), n: 3, t: 2, seed: format!("s{seed}"), cross_process: true }).unwrap());
             }
         }
         out
     }
     fn run(&self, case: &Value) -> Outcome {
         let c: Case = serde_json::from_value(case.clone()).expect("case");
+        if c.cross_process {
+            return cross_process(&c);
+        }
         with_suite!(c.suite.as_str(), run_case, &c)
     }
+}
+
+/// hex digests of the outputs of every entry point at (3,2) under the base stream
+pub fn digests(suite: &str, seed: &str) -> BTreeMap<String, String> {
+    fn inner<C: Suite>(seed: &str) -> BTreeMap<String, String> {
+        use sha2::{Digest, Sha256};
+        let mut m = BTreeMap::new();
+        let Ok(fx) = Fixture::<C>::new() else { return m };
+        for e in ENTRIES {
+            let c = Case { suite: C::name(), entry: e.to_string(), n: 3, t: 2, seed: seed.to_string(), cross_process: false };
+            let d = match exec::<C>(&c, ScriptedRng::ctr(format!("{seed}.base")), &fx) {
+                Ok(o) => hex::encode(&Sha256::digest(&o.output)[..16]),
+                Err(e) => format!("error: {e}"),
+            };
+            m.insert(e.to_string(), d);
+        }
+        m
+    }
+    with_suite!(suite, inner, seed)
+}
+
+fn cross_process(c: &Case) -> Outcome {
+    let mut o = Outcome::new();
+    let tag = format!("C16/{}", c.suite);
+    let here = digests(&c.suite, &c.seed);
+    let exe = match std::env::current_exe() {
+        Ok(e) => e,
+        Err(e) => {
+            o.machinery_error(format!("current_exe: {e}"));
+            return o;
+        }
+    };
+    let out = std::process::Command::new(exe).arg("c16-digest").arg(&c.suite).arg(&c.seed).output();
+    match out {
+        Ok(out) if out.status.success() => match serde_json::from_slice::<BTreeMap<String, String>>(&out.stdout) {
+            Ok(there) => {
+                for (k, v) in &here {
+                    o.eval(true);
+                    o.count("cross_process_comparisons", 1);
+                    if there.get(k) != Some(v) {
+                        o.fail(format!("{tag}/{k}/differs-between-processes"), format!("outputs under the same random source differ between two processes: {v} vs {:?} (a per-process entropy source is in use)", there.get(k)));
+                    }
+                }
+            }
+            Err(e) => o.machinery_error(format!("child output: {e}")),
+        },
+        Ok(out) => o.machinery_error(format!("child exited with {:?}", out.status.code())),
+        Err(e) => o.machinery_error(format!("cannot spawn child: {e}")),
+    }
+    o.class("cross-process");
+    o
 }
 
 /// What one execution of an entry point yields.
